@@ -296,7 +296,7 @@ def run(chk, replay=None):
 
     # ---------------------------------------------------------------- code -> spec on random catalogs
     traces, meta = [], []
-    n_tr = 40 if quick else 400
+    n_tr = 40 if quick else 2500
     for t in range(n_tr):
         w = worlds[t % len(worlds)]
         n = rng.choice([0, 1, 2, 5, 50, 200, 500])
